@@ -68,6 +68,10 @@ CHECKS["C19"] = dict(engine="E5", technique="runtime monitoring: command-call tr
              text="Exploration of define / redefine / invalid-define / call sequences and bursts of overlapping calls; every output embeds the call's argument, the definition's tag and an isolation probe, so stamp mix-ups, stale definitions, state leaks, duplicate or missing terminal events are set/sequence comparisons.",
              note=E5_NOTE, ref="§7 E5, §8 C19")
 
+CHECKS["C17"] = dict(engine="E5", technique="runtime monitoring: real serve process restarted by SIGKILL / clean stop; probe differential across the restart plus a history-derived expected set for generators",
+             text="Exploration of register/spawn/define histories that reuse names across three contexts, followed by 1-2 restarts; the sets of (context, name, id) answering a probe before and after must be equal, generators whose latest spawn succeeded must restart with the same id, and nothing written after the restart may answer a pre-restart trigger or call.",
+             note=E5_NOTE, ref="§7 E5, §8 C17")
+
 NOT_YET = {
 }
 
